@@ -163,4 +163,115 @@ theorem locatorLoop_congr (A : Nat → Option Nat) (anc : Nat → Nat → Option
         fun st k => e1 st _ (Nat.sub_le _ _)
       simp only [e2, e3]
 
+/-! ## `build_skip` establishes the store invariant -/
+
+/-- the store after `header_map.insert(h)` -/
+def extend (store : Store) (h : Hdr) : Store := fun i => if i = h.id then some h else store i
+
+theorem extend_old {store : Store} {h : Hdr} {i : Nat} {x : Hdr} (hnew : store h.id = none)
+    (hx : store i = some x) : extend store h i = some x := by
+  unfold extend
+  split
+  · rename_i hi; rw [hi, hnew] at hx; cases hx
+  · exact hx
+
+theorem walk_extend {store : Store} {h : Hdr} (hnew : store h.id = none) (k : Nat) :
+    ∀ (g t : Hdr), walk store k g = some t → walk (extend store h) k g = some t := by
+  induction k with
+  | zero => intro g t hw; exact hw
+  | succ k ih =>
+    intro g t hw
+    simp only [walk] at hw ⊢
+    cases hp : store g.parent with
+    | none => rw [hp] at hw; cases hw
+    | some p =>
+      rw [hp] at hw
+      rw [extend_old hnew hp]
+      exact ih p t hw
+
+/-- what `build_skip` computes for a header that is not in the store yet: the parent walk -/
+theorem getAncestor_new {store : Store} (ok : StoreOk store) {scan : Nat → Hdr → Option Hdr}
+    (sok : ScanOk store scan) {h p : Hdr} (hskip : h.skip = none) (hp : store h.parent = some p)
+    (hn : p.number + 1 = h.number) {number : Nat} (hnum : number ≤ p.number) :
+    getAncestor store scan h number = walk store (p.number - number) p := by
+  have hpid := ok.id_ok _ _ hp
+  have hps : store p.id = some p := by rw [hpid]; exact hp
+  unfold getAncestor
+  rw [if_neg (by omega)]
+  have hfuel : h.number = p.number + 1 := by omega
+  rw [hfuel]
+  simp only [ancestorLoop]
+  rw [if_pos (by omega)]
+  have hstep : nextStep store number h (p.number + 1) = some (p, p.number) := by
+    simp [nextStep, hskip, hp]
+  rw [hstep]
+  simp only []
+  cases hsc : scan number p with
+  | some t =>
+    simp only []
+    exact (sok number p t hsc hnum).symm
+  | none =>
+    simp only []
+    exact ancestorLoop_eq_walk ok sok number p.number p p.number hps rfl hnum (Nat.le_refl _)
+
+/-- inserting a header whose skip pointer was computed by `build_skip` keeps the store well formed -/
+theorem storeOk_extend {store : Store} (ok : StoreOk store) {scan : Nat → Hdr → Option Hdr}
+    (sok : ScanOk store scan) {h : Hdr} (hnew : store h.id = none) (hskip : h.skip = none)
+    (hpar : h.number = 0 ∨ ∃ p, store h.parent = some p ∧ p.number + 1 = h.number) :
+    StoreOk (extend store (buildSkip store scan h)) := by
+  have hid : (buildSkip store scan h).id = h.id := by unfold buildSkip; split <;> rfl
+  have hnum : (buildSkip store scan h).number = h.number := by unfold buildSkip; split <;> rfl
+  have hparent : (buildSkip store scan h).parent = h.parent := by unfold buildSkip; split <;> rfl
+  have hnew' : store (buildSkip store scan h).id = none := by rw [hid]; exact hnew
+  refine ⟨?_, ?_, ?_⟩
+  · intro i x hx
+    unfold extend at hx
+    split at hx
+    · rename_i hi
+      have := Option.some.inj hx
+      rw [← this]; exact hi.symm
+    · exact ok.id_ok i x hx
+  · intro i x hx hpos
+    unfold extend at hx
+    split at hx
+    · have hxe := Option.some.inj hx
+      rw [← hxe, hnum] at hpos
+      rw [← hxe, hparent, hnum]
+      rcases hpar with h0 | ⟨p, hp, hpn⟩
+      · omega
+      · exact ⟨p, extend_old hnew' hp, hpn⟩
+    · obtain ⟨p, hp, hpn⟩ := ok.parent_ok i x hx hpos
+      exact ⟨p, extend_old hnew' hp, hpn⟩
+  · intro i x s hx hs
+    unfold extend at hx
+    split at hx
+    · have hxe := Option.some.inj hx
+      subst hxe
+      -- the new header: its skip pointer is what get_ancestor returned
+      rcases hpar with h0 | ⟨p, hp, hpn⟩
+      · have : (buildSkip store scan h).skip = none := by
+          unfold buildSkip; simp [h0, hskip]
+        rw [this] at hs; cases hs
+      · have hne : (h.number == 0) = false := by simp; omega
+        have hsk : (buildSkip store scan h).skip =
+            (getAncestor store scan h (getSkipHeight h.number)).map (·.id) := by
+          unfold buildSkip; simp [hne]
+        have hlt := getSkipHeight_lt (h := h.number) (by omega)
+        have hle : getSkipHeight h.number ≤ p.number := by omega
+        rw [hsk, getAncestor_new ok sok hskip hp hpn hle] at hs
+        have hps : store p.id = some p := by rw [ok.id_ok _ _ hp]; exact hp
+        obtain ⟨t, ht, _, hts⟩ := walk_ok ok (p.number - getSkipHeight h.number) p hps (by omega)
+        rw [ht] at hs
+        have hst : t.id = s := by simpa using hs
+        subst hst
+        refine ⟨t, extend_old hnew' hts, ?_⟩
+        rw [hnum]
+        have : h.number - getSkipHeight h.number = (p.number - getSkipHeight h.number) + 1 := by omega
+        rw [this]
+        simp only [walk, hparent]
+        rw [extend_old hnew' hp]
+        exact walk_extend hnew' _ p t ht
+    · obtain ⟨t, ht, hw⟩ := ok.skip_ok i x s hx hs
+      exact ⟨t, extend_old hnew' ht, walk_extend hnew' _ x t hw⟩
+
 end CkbVerif.Skip
